@@ -70,7 +70,7 @@ class C17(Check):
     required_probes = [
         "crash_points_enumerated", "lost_writes_enumerated", "load_rejected_incomplete", "load_accepted_complete",
         "special_values", "markers_eq_dim", "overwrite", "foreign_file", "param_mismatch_reader", "rod_io", "eulerian_io",
-        "grid_without_fields", "recovery_after_failed_save", "post_hoc_delete", "reader_object_reused", "file_name_without_h5_suffix", "non_c_contiguous_registered_arrays",
+        "grid_without_fields", "recovery_after_failed_save", "post_hoc_delete", "reader_object_reused", "file_name_without_h5_suffix", "non_c_contiguous_registered_arrays", "cross_class_reader",
     ]
     tiers = {
         "quick": {"runs": 640, "batch": 8, "timeout": 300},
@@ -186,6 +186,22 @@ class C17(Check):
                     s["mutation"] = m
                     s["of"] = i
                     readers.append(s)
+        # cross-class reader: the same physical grid and fields seen through the other Eulerian IO class
+        # (values exactly representable in single precision so that both classes define the identical grid)
+        for i in range(n_ios):
+            w = ios[i]
+            if w["cls"] in ("EulerianFieldIO", "IO") and w["grid"] and w["efields"] and not w["lgrids"] and not any(z.get("twin_of") == i or z.get("of") == i for z in ios + readers) and "twin_of" not in w and rng.random() < 0.6:
+                w["grid"]["dx"] = rng.choice([0.125, 0.5, 0.25, 1.0])
+                w["grid"]["origin"] = [rng.choice([0.0, -1.5, 10.0, 0.5, 2000.0]) for _ in range(dim)]
+                x = copy.deepcopy(w)
+                x["cls"] = "IO" if w["cls"] == "EulerianFieldIO" else "EulerianFieldIO"
+                x["cross_of"] = i
+                x["of"] = i
+                x.pop("twin_of", None)
+                readers.append(x)
+        for r in readers:
+            if "of" in r and r.get("mutation"):
+                pass
         specs = ios + readers
         # file names are the caller's choice: with and without the customary ".h5" suffix
         files = rng.choice([["a.h5", "b.h5"], ["a.h5", "b.h5"], ["a.h5", "state.hdf5"], ["chk", "b.h5"], ["run.h5.d_x.h5", "b.h5"]])
@@ -207,7 +223,10 @@ class C17(Check):
                 saved.append((f, i))
             elif r < 0.85:
                 f, wi = rng.choice(saved)
-                if rng.random() < 0.7:
+                related = [k for k, z in enumerate(specs) if z.get("of") == wi]
+                if related and rng.random() < 0.35:
+                    j = rng.choice(related)  # a reader derived from this writer: mismatching or cross-class
+                elif rng.random() < 0.7:
                     j = wi
                 else:
                     j = rng.randrange(len(specs))
@@ -600,7 +619,7 @@ class C17(Check):
                 res.probe("load_accepted_complete" if not lacking else "load_accepted_incomplete")
             else:
                 # ---- raised
-                must_accept = same_reg and not lacking and (params_ok or not has_e) and has_time and spec.get("mutation") is None and j == T["writer"] and not T["deleted"]
+                must_accept = same_reg and not lacking and (params_ok or not has_e) and has_time and spec.get("mutation") is None and (j == T["writer"] or spec.get("cross_of") == T["writer"]) and not T["deleted"]
                 if must_accept and T["ack"] and tag in ("none", "recovery"):
                     res.violation(
                         "rejected_matching_file",
@@ -608,6 +627,8 @@ class C17(Check):
                         f"load of complete matching file {f} raised {type(raised).__name__}: {raised}",
                     )
                 res.probe("load_rejected_incomplete" if (lacking or params_far or not has_time) else "load_rejected_other")
+            if spec.get("cross_of") is not None:
+                res.probe("cross_class_reader")
             if spec.get("mutation"):
                 res.probe("param_mismatch_reader" if spec["mutation"] in ("origin", "dx", "size") else "extra_item_reader")
             if j != T["writer"] and spec.get("of") != T["writer"]:
